@@ -122,6 +122,14 @@ def body(ctx, p):
                     detail=dict(got=list(a.atom_type_elements)))
         a = Atoms.load_lmpdat(io.StringIO(txt % ('12.06', '39.19')), guess_atol=0.1)
         ctx.require('tolerance argument reaches the guess (0.1: 12.06 is C, 39.19 is K)', list(a.atom_type_elements) == ['C', 'K'])
+        masses = ctx.ms.get('mofun.atomic_masses').ATOMIC_MASSES
+        els12 = ['C', 'H', 'O', 'N', 'S', 'K', 'Ni', 'Zr', 'Cu', 'Zn', 'F', 'Cl']
+        big = ("x\n\n12 atoms\n0 bonds\n0 angles\n0 dihedrals\n0 impropers\n\n12 atom types\n 0.0 10.0 xlo xhi\n 0.0 10.0 ylo yhi\n 0.0 10.0 zlo zhi\n\nMasses\n\n"
+               + ''.join(' %d %.4f\n' % (i + 1, masses[e]) for i, e in enumerate(els12)) + "\nAtoms\n\n"
+               + ''.join(' %d 1 %d 0.0 %d.0 1.0 1.0\n' % (i + 1, i + 1, i) for i in range(12)))
+        a12 = Atoms.load_lmpdat(io.StringIO(big))
+        ctx.require('more than nine atom types keep their order (type k has the k-th mass and element)', list(a12.atom_type_elements) == els12 and list(a12.elements) == els12,
+                    detail=dict(got=list(a12.atom_type_elements)))
         a = Atoms.load_lmpdat(io.StringIO(txt % ('12.06', '39.19')), guess_atol=0.03)
         ctx.require('tolerance argument reaches the guess (0.03: fallback)', list(a.atom_type_elements) == ['1', '2'])
 
